@@ -74,13 +74,13 @@ def run(tier):
             raise vlib.Inconclusive("GlobalWin generation failed:\n" + r["out"][-2000:])
         res.cov["states"] += r["distinct"]; res.cov["transitions"] += r["generated"]
         hists = [json.loads(x[1]) for x in vlib.prints(r["out"], "SCEN")]
-        cap = 500 if quick else 5000
+        cap = 500 if quick else 20000
         if len(hists) > cap:
             hists = rng.sample(hists, cap); res.cov["exhaustive"] = False
         for k, h in enumerate(hists):
             scen.append(scenario(pred, h, k % len(SELECTS), rng, ["null", "missing", "mix"][k % 3], "lower" if k % 4 == 3 else "upper"))
     # longer seeded runs, more groups
-    for _ in range(100 if quick else 800):
+    for _ in range(100 if quick else 4000):
         pred = rng.choice(list(MENU))
         L = rng.choice([8, 12, 20])
         groups = ["a", "b", "c", "d"][:rng.choice([1, 2, 4])]
